@@ -11,7 +11,7 @@ where = {
 }
 found = False
 mods = []
-for l in open("/verif/work/handler_facts.txt"):
+for l in open(__import__("os").path.join(__import__("os").path.dirname(__import__("os").path.dirname(__import__("os").path.abspath(__file__))), "work/handler_facts.txt")):
     f = l.rstrip("\n").split("\t")
     facts = dict(x.split("=", 1) for x in f[1:])
     if "farmValidatesTaxRate" in facts or "coinswapValidatesFeeDenom" in facts:
@@ -20,9 +20,9 @@ for l in open("/verif/work/handler_facts.txt"):
     for k in need:
         if facts.get(k) != "true":
             found = True
-            print("FAILING-INPUT handler fact %s=false for module %s: %s" % (k, f[0], where[k]))
+            print("BROKEN-FACT (syntactic source fact; the harness run decides whether an input fails) handler fact %s=false for module %s: %s" % (k, f[0], where[k]))
 if mods != ["coinswap", "farm", "htlc", "service", "token"]:
     found = True
-    print("FAILING-INPUT handler table lists %s" % mods)
+    print("BROKEN-FACT handler table lists %s" % mods)
 if not found:
     print("every regenerated handler fact holds; the broken obligation is elsewhere")
